@@ -32,7 +32,9 @@ class DirHandler(BaseHandler):
         self.files = []
         dirfiles = self.vfs.listdir(self.getselector())
         ignorepatt = self.config.get("handlers.dir.DirHandler", "ignorepatt")
-        for file in dirfiles:
+        # Walk the directory in a fixed order: subclasses read link files as
+        # they come by, and later link files override earlier ones.
+        for file in sorted(dirfiles):
             if self.prep_initfiles_canaddfile(
                 ignorepatt, self.selectorbase + "/" + file, file
             ):
